@@ -665,3 +665,66 @@ Proof.
   simpl in Hm. apply andb_true_iff in Hm. destruct Hm as [H1 H2]. apply String.eqb_eq in H1, H2. subst.
   exists v. auto.
 Qed.
+
+(* ------------------------------------------------------------------------------------------------------------------------------
+   Round 7: sequence-level lifts and completeness directions of the value obligation *)
+
+(* executing a concatenation = executing the parts one after the other (any sequences, any store) *)
+Theorem exec_fn_app : forall fn p q s, exec_fn fn (p ++ q)%list s = exec_fn fn q (exec_fn fn p s).
+Proof. intros fn p. induction p as [|v r IH]; simpl; intros q s; [reflexivity | apply IH]. Qed.
+
+(* running the same assignments AGAIN changes nothing: a reset that is repeated (reset twice, detach after reset ...) leaves the
+   store it left the first time -- for ANY sequence of assignments and ANY store *)
+Theorem exec_fn_idempotent : forall fn p s c f, exec_fn fn (p ++ p)%list s c f = exec_fn fn p s c f.
+Proof.
+  intros fn p s c f. rewrite exec_fn_app, !exec_fn_last.
+  rewrite (last_val_acc p fn c f (last_val p fn c f (s c f))), (last_val_acc p fn c f (s c f)).
+  destruct (last_val p fn c f None); reflexivity.
+Qed.
+
+(* ... and what ran BEFORE a sequence is irrelevant for the members the sequence assigns (history independence at store level) *)
+Theorem exec_fn_history_irrelevant : forall fn p s1 s2 c f e,
+  last_val p fn c f None = Some e -> exec_fn fn p s1 c f = exec_fn fn p s2 c f.
+Proof. intros fn p s1 s2 c f e H. rewrite !exec_fn_last, (last_val_acc p fn c f (s1 c f)), (last_val_acc p fn c f (s2 c f)), H. reflexivity. Qed.
+
+(* completeness of lookup_init: it finds the FIRST entry of the member, and answers None exactly when there is none *)
+Theorem lookup_init_none : forall is c f,
+  lookup_init is c f = None <-> forall e, ~ In (mk_init c f e) is.
+Proof.
+  induction is as [|i r IH]; simpl; intros c f.
+  - split; [intros _ e H; exact H | reflexivity].
+  - destruct (String.eqb (i_class i) c && String.eqb (i_field i) f) eqn:E.
+    + split; [discriminate|]. intros H. exfalso. apply andb_true_iff in E. destruct E as [E1 E2]. apply String.eqb_eq in E1, E2.
+      apply (H (i_val i)). left. destruct i; simpl in *; subst; reflexivity.
+    + rewrite IH. split.
+      * intros H e [Hi | Hr]; [|exact (H e Hr)]. subst i. simpl in E. rewrite !String.eqb_refl in E. discriminate.
+      * intros H e Hr. apply (H e). right. exact Hr.
+Qed.
+
+(* both directions of the per-assignment verdict: val_ok holds EXACTLY when the assignment is outside the reviewed functions, is a
+   reviewed exception, or writes the recorded initial value *)
+Theorem val_ok_spec : forall is v,
+  val_ok is v = true <->
+  (~ In (v_func v) value_funcs \/ excepted v = true \/
+   exists i, lookup_init is (v_class v) (v_field v) = Some i /\ same_value i (v_val v) = true).
+Proof.
+  intros is v. unfold val_ok, initial_value_written. rewrite !orb_true_iff, negb_true_iff. split.
+  - intros [[H | H] | H].
+    + left. intros Hin. apply mem_In in Hin. rewrite Hin in H. discriminate.
+    + right. left. exact H.
+    + right. right. destruct (lookup_init is (v_class v) (v_field v)) as [i|]; [exists i; auto | discriminate].
+  - intros [H | [H | [i [Hi Hs]]]].
+    + left. left. destruct (mem (v_func v) value_funcs) eqn:E; [|reflexivity]. exfalso. apply H. apply mem_In. exact E.
+    + left. right. exact H.
+    + right. rewrite Hi. exact Hs.
+Qed.
+
+(* completeness of the whole check: if every assignment satisfies the specification above and the lists are live, the checker
+   accepts (so a refusal always has a reason expressible in the specification) *)
+Theorem check_values_complete : forall is vs,
+  (forall v, In v vs -> ~ In (v_func v) value_funcs \/ excepted v = true \/
+             exists i, lookup_init is (v_class v) (v_field v) = Some i /\ same_value i (v_val v) = true) ->
+  values_hygiene is vs = true -> check_values is vs = true.
+Proof.
+  intros is vs H Hh. unfold check_values. rewrite Hh, andb_true_r. apply forallb_forall. intros v Hv. apply val_ok_spec. exact (H v Hv).
+Qed.
